@@ -516,4 +516,203 @@ example : Arrivals 3 (fun k => 1100 + 10 * ((k : Int) + 1))
       rcases this with rfl | rfl | rfl <;> split <;> (try split) <;> (try split) <;> omega,
    fun a => by split <;> (try split) <;> (try split) <;> omega⟩
 
+/-! ### Part 4 — request / reply (FDL status request answered from `ListenToken` / `ActiveIdle`) -/
+
+/-- **Part 4a, registering poll (`ActiveIdle`).**  An idle station without pending request, polled at `r1`
+(PHY idle, later than its stamp, token-lost time-out not run out) with a buffer that decodes to exactly
+one telegram, an FDL status request addressed to it: nothing is transmitted, no application is called,
+the request is registered (`statusReq = some SA`), stamp := `r1`, pending count 0. -/
+theorem request_registered_idle (s : Station) (apps : Apps) (r1 : Int) (rx rx' : Bytes) (np : Option Nat) (coll : Nat)
+    (h : Header) (pdu : Bytes) (fcb : FrameCountBit) (ret : Bool) (hon : s.online = true)
+    (hst : s.st = .activeIdle none np coll)
+    (hlate : ∀ l, s.lastBusActivity = some l → l < r1) (hto : 0 < s.p.tokenLostTimeout)
+    (hfresh : s.pendingBytes < rx.length ∨ ∃ l, s.lastBusActivity = some l ∧ r1 < l + (s.p.tokenLostTimeout : Nat))
+    (hrx : receiveAll rx = .done rx' [(.data h pdu, true)] ret)
+    (hfc : h.fc = .request fcb .fdlStatus) (hda : h.da.toNat = s.p.address) :
+    ∃ c1, s.poll apps r1 false rx = .ok c1 ∧ c1.tx = none ∧ c1.calls = [] ∧ c1.rx = [] ∧ c1.apps = apps ∧
+      Registered c1.s h.sa.toNat ∧ c1.s.st = .activeIdle (some h.sa.toNat) np coll ∧
+      c1.s.lastBusActivity = some r1 ∧ c1.s.p = s.p ∧ c1.s.online = true := by
+  have hrx' : rx' = [] := receiveAll_true_empty rx rx' _ ret hrx ⟨(.data h pdu, true), List.mem_singleton.mpr rfl, rfl⟩
+  subst hrx'
+  exact ⟨_, idle_poll_registers s apps r1 rx [] np coll h pdu fcb ret hon hst hlate hto hfresh hrx hfc hda,
+    rfl, rfl, rfl, rfl, .inr ⟨np, coll, rfl⟩, rfl, rfl, rfl, hon⟩
+
+/-- **Part 4a, registering poll (`ListenToken`)**: the same for a listening station (the request must come
+from another address). -/
+theorem request_registered_listen (s : Station) (apps : Apps) (r1 : Int) (rx rx' : Bytes) (coll : Nat)
+    (h : Header) (pdu : Bytes) (fcb : FrameCountBit) (ret : Bool) (hon : s.online = true)
+    (hst : s.st = .listenToken none coll)
+    (hlate : ∀ l, s.lastBusActivity = some l → l < r1) (hto : 0 < s.p.tokenLostTimeout)
+    (hfresh : s.pendingBytes < rx.length ∨ ∃ l, s.lastBusActivity = some l ∧ r1 < l + (s.p.tokenLostTimeout : Nat))
+    (hrx : receiveAll rx = .done rx' [(.data h pdu, true)] ret)
+    (hfc : h.fc = .request fcb .fdlStatus) (hda : h.da.toNat = s.p.address) (hsa : h.sa.toNat ≠ s.p.address) :
+    ∃ c1, s.poll apps r1 false rx = .ok c1 ∧ c1.tx = none ∧ c1.calls = [] ∧ c1.rx = [] ∧ c1.apps = apps ∧
+      Registered c1.s h.sa.toNat ∧ c1.s.st = .listenToken (some h.sa.toNat) coll ∧
+      c1.s.lastBusActivity = some r1 ∧ c1.s.p = s.p ∧ c1.s.online = true := by
+  have hrx' : rx' = [] := receiveAll_true_empty rx rx' _ ret hrx ⟨(.data h pdu, true), List.mem_singleton.mpr rfl, rfl⟩
+  subst hrx'
+  exact ⟨_, listen_poll_registers s apps r1 rx [] coll h pdu fcb ret hon hst hlate hto hfresh hrx hfc hda hsa,
+    rfl, rfl, rfl, rfl, .inl ⟨coll, rfl⟩, rfl, rfl, rfl, hon⟩
+
+/-- **Part 4, `reply_handshake_responder`.**  A station with a registered status request from `src`
+(`ListenToken (some src)` or `ActiveIdle (some src)`, `Registered`), stamp `r1` (the registering poll),
+under the invariant, on a silent bus, with the token-lost time-out longer than the synchronisation
+pause: ANY polls at times `≤ r1 + 33 bit` are complete no-ops (nothing transmitted, station unchanged),
+and the FIRST poll at a time `t > r1 + 33 bit` hands the FDL status reply addressed to `src` to the PHY,
+clears the request (`afterReply`: an idle station stays idle, a listener with a valid LAS joins as
+`ActiveIdle`) and stamps the predicted end — provided `t < r1 + Tto` (otherwise `handle_lost_token`
+comes first and the station claims the token instead, `C06.claim_progress`). -/
+theorem reply_handshake_responder (s : Station) (apps : Apps) (r1 : Int) (src : Nat) (hinv : Inv s apps)
+    (hon : s.online = true) (hreg : Registered s src) (hl : s.lastBusActivity = some r1)
+    (hto : s.p.bits 33 < s.p.tokenLostTimeout)
+    (early : List Int) (t : Int) (hearly : ∀ e ∈ early, e ≤ r1 + (s.p.bits 33 : Nat))
+    (ht : r1 + (s.p.bits 33 : Nat) < t) (hq : t < r1 + (s.p.tokenLostTimeout : Nat)) :
+    QuietThenReply s.p.address src s apps early t :=
+  responder_schedule s apps r1 t src hinv hon hreg hl hto ht hq early hearly
+
+/-- **Part 4, responder, timed form**: polled at `t 0, t 1, …` with `t 0 ≤ r1 + P`, gaps at most `P`,
+`33 bit + P < Tto`, the reply starts at a poll time in `(r1 + 33 bit, r1 + 33 bit + P]`. -/
+theorem responder_replies_timed (s : Station) (apps : Apps) (r1 : Int) (src : Nat) (hinv : Inv s apps)
+    (hon : s.online = true) (hreg : Registered s src) (hl : s.lastBusActivity = some r1)
+    (t : Nat → Int) (P : Nat) (hto : s.p.bits 33 + P < s.p.tokenLostTimeout)
+    (h0 : t 0 ≤ r1 + P) (hgap : ∀ i, t (i + 1) ≤ t i + P) (hgo : ∃ k, r1 + (s.p.bits 33 : Nat) < t k) :
+    ∃ n, r1 + (s.p.bits 33 : Nat) < t n ∧ t n ≤ r1 + (s.p.bits 33 : Nat) + P ∧
+      QuietThenReply s.p.address src s apps ((List.range n).map t) (t n) := by
+  obtain ⟨k, hk⟩ := hgo
+  obtain ⟨n, h1, h2, h3⟩ := first_exceed_timed t r1 (s.p.bits 33) P h0 hgap k hk
+  refine ⟨n, h1, h2, reply_handshake_responder s apps r1 src hinv hon hreg hl (by omega) _ _ ?_ h1 (by omega)⟩
+  intro e he
+  simp only [List.mem_map, List.mem_range] at he
+  obtain ⟨i, hi, rfl⟩ := he
+  exact h3 i hi
+
+/-- **Part 4, `reply_handshake_requester`.**  A station waiting for a reply — `AwaitStatusResponse`
+(GAP poll), `ClaimToken(ScanAwait)` (GAP poll while claiming) or `AwaitDataResponse` (application
+request), `Awaiting` — with stamp `te` (predicted end of its request, `tx_marks_busy`).  For ONE poll
+at any time, any PHY flag, any receive buffer, that returns regularly:
+(a) at `now ≤ te` the poll is a complete no-op;
+(b) at `now ≤ te + Tslot`, and (c) at ANY time if more bytes are in the receive buffer than accounted
+    for: nothing is transmitted — the station does not give up: no retry, no token pass, and (PHY idle,
+    `now > te`) no `timeout` is reported to the application (`NoTimeout`); while no complete telegram has
+    arrived the station is unchanged except for the registered activity (still waiting, stamp := `now`
+    if a byte is new). -/
+theorem reply_handshake_requester (s : Station) (apps : Apps) (now : Int) (phy : Bool) (rx : Bytes) (c' : Ctx)
+    (te : Int) (hon : s.online = true) (haw : Awaiting s) (hl : s.lastBusActivity = some te)
+    (h : s.poll apps now phy rx = .ok c') :
+    (now ≤ te → c' = { s := s, apps := apps, rx := rx }) ∧
+    ((now ≤ te + (s.p.slotTime : Nat) ∨ s.pendingBytes < rx.length) → c'.tx = none) ∧
+    (te < now → phy = false → (now ≤ te + (s.p.slotTime : Nat) ∨ s.pendingBytes < rx.length) →
+      NoTimeout [] c'.calls ∧
+      ∀ rx' ret, receiveTelegram rx = .done rx' [] ret →
+        c' = { s := checkBusActivity s now rx.length, apps := apps, rx := rx' }) := by
+  have ha : now ≤ te → c' = { s := s, apps := apps, rx := rx } := by
+    intro hle
+    rw [poll_ongoing s apps now phy rx hon haw.awake.1 haw.awake.2 te hl hle] at h
+    cases h; rfl
+  have hc : te < now → phy = false → (now ≤ te + (s.p.slotTime : Nat) ∨ s.pendingBytes < rx.length) →
+      c'.tx = none ∧ NoTimeout [] c'.calls ∧
+      ∀ rx' ret, receiveTelegram rx = .done rx' [] ret →
+        c' = { s := checkBusActivity s now rx.length, apps := apps, rx := rx' } := by
+    intro hlt hphy hne
+    subst hphy
+    exact requester_poll_waits s apps now rx c' te hon haw hl hlt hne.symm h
+  refine ⟨ha, fun hne => ?_, fun hlt hphy hne => (hc hlt hphy hne).2⟩
+  by_cases hle : now ≤ te
+  · rw [ha hle]
+  · cases phy with
+    | true =>
+      cases htx : c'.tx with
+      | none => rfl
+      | some b => exact absurd (tx_needs_idle s apps now true rx c' h (by rw [htx]; simp)).1 (by simp)
+    | false => exact (hc (by omega) rfl hne).1
+
+/-- **Part 4, requester, run form (`requester_never_gives_up`)**: under the invariant, for any `Dense`
+sequence of polls, every poll returns regularly, transmits nothing and reports no time-out, for as long
+as the polls find no complete telegram in the buffer (then the reply is handled, `C15.reply_delivery`,
+`C12`). -/
+theorem requester_never_gives_up (s : Station) (apps : Apps) (te : Int) (hinv : Inv s apps)
+    (hon : s.online = true) (haw : Awaiting s) (hl : s.lastBusActivity = some te)
+    (polls : List (Int × Bytes)) (hd : Dense s.p.slotTime te s.pendingBytes polls) :
+    AwaitsQuietly s apps polls :=
+  requester_run s.p polls s apps te hinv hon haw hl rfl hd
+
+/-- **Part 4, `reply_handshake`** (two stations, one request/reply).  Requester A waits (`Awaiting`, stamp
+`te`, nothing pending); responder R has registered A's request at its poll `r1`, the first that saw the
+complete request (`tb ≤ r1 ≤ tb + P_R`, `tb ≤ te + E` the real end of the request on the bus), and is then
+polled at `tR 0, tR 1, …` with gaps `≤ P_R` (`33 bit + P_R < Tto`) on a silent bus.  Under
+`Margin Tslot (33 bit) E P_R C`: R replies at its first poll `q = tR n` later than `r1 + 33 bit`, with
+`tb + 33 bit < q` (in particular later than the minimum station delay of 11 bit after the request) and
+`q + C ≤ te + Tslot`; and if the characters of the reply reach A according to an arrival model with the
+first character complete by `q + C` and consecutive ones at most a slot time apart, then for every
+time-ordered sequence of polls of A seeing the corresponding prefixes A never gives up: no retry, no
+token pass, no `timeout` callback, until the complete reply is in its buffer. -/
+theorem reply_handshake
+    (sA : Station) (appsA : Apps) (te : Int) (hinvA : Inv sA appsA) (honA : sA.online = true)
+    (hawA : Awaiting sA) (hlA : sA.lastBusActivity = some te) (hpbA : sA.pendingBytes = 0)
+    (sR : Station) (appsR : Apps) (r1 : Int) (src : Nat) (hinv : Inv sR appsR) (hon : sR.online = true)
+    (hreg : Registered sR src) (hl : sR.lastBusActivity = some r1)
+    (tR : Nat → Int) (PR : Nat) (hto : sR.p.bits 33 + PR < sR.p.tokenLostTimeout)
+    (h0 : tR 0 ≤ r1 + PR) (hgap : ∀ i, tR (i + 1) ≤ tR i + PR) (hgo : ∃ k, r1 + (sR.p.bits 33 : Nat) < tR k)
+    (tb : Int) (E C : Nat) (hE : tb ≤ te + E) (hr1 : tb ≤ r1) (hr1' : r1 ≤ tb + PR)
+    (hm : Margin sA.p.slotTime (sR.p.bits 33) E PR C) :
+    ∃ n, QuietThenReply sR.p.address src sR appsR ((List.range n).map tR) (tR n) ∧
+      tb + (sR.p.bits 33 : Nat) < tR n ∧ tR n + C ≤ te + (sA.p.slotTime : Nat) ∧
+      ∀ (nb : Nat) (arr : Nat → Int) (vis : Int → Nat), 0 < nb → Arrivals nb arr vis → arr 0 ≤ tR n + C →
+        (∀ k, k + 1 < nb → arr (k + 1) ≤ arr k + (sA.p.slotTime : Nat)) →
+        ∀ polls : List (Int × Bytes), polls.Pairwise (fun x y => x.1 ≤ y.1) →
+          (∀ x ∈ polls, x.2.length = vis x.1) → (∀ x ∈ polls, ∀ y ∈ polls, x.1 < y.1 → vis x.1 < nb) →
+          AwaitsQuietly sA appsA polls := by
+  obtain ⟨n, hn1, hn2, hq⟩ := responder_replies_timed sR appsR r1 src hinv hon hreg hl tR PR hto h0 hgap hgo
+  obtain ⟨f1, f2, -⟩ := handover_first_char sA.p.slotTime (sR.p.bits 33) E PR C te tb r1 (tR n) hm hE hr1 hr1' hn1 hn2
+  refine ⟨n, hq, f1, f2, ?_⟩
+  intro nb arr vis hnb hA harr0 hgapc polls hpw hlen hinc
+  refine requester_never_gives_up sA appsA te hinvA honA hawA hlA polls ?_
+  rw [hpbA]
+  exact dense_of_arrivals sA.p.slotTime nb arr vis hA hgapc polls te 0 hpw hlen hinc (fun _ _ _ => Nat.zero_le _)
+    (fun _ => by omega) (fun h0 => by omega)
+
+/-! Non-vacuity of part 4.  Responder: station 3, idle (`sB` without pending stranger), receives at 1000 µs
+the status request 5→3 (`10 03 05 49 51 16`), registers it, and replies at its first poll later than 1066 µs.
+Requester: station 5 in `AwaitStatusResponse 3` (stamp 0, `Tslot` = 400 µs) while the reply trickles in. -/
+def sR0 : Station :=
+  { (Station.new pEx) with online := true, st := .activeIdle none none 0, lastBusActivity := some 0 }
+
+theorem sR0_inv : Inv sR0 [] := by
+  have h := inv_new pEx [] (by decide) (by decide) (by intro s hs; cases hs)
+  exact ⟨h.addr, h.hsa, h.ring, fun ho => by simp [sR0] at ho, h.gap, fun a ha => by simp [sR0] at ha,
+    fun a ha => by simp [sR0] at ha, h.app, fun a d ha => by simp [sR0] at ha, h.scripts, by simp [sR0]⟩
+
+example : ∃ c1, sR0.poll [] 1000 false [0x10, 3, 5, 0x49, 0x51, 0x16] = .ok c1 ∧ c1.tx = none ∧ c1.calls = [] ∧
+    c1.rx = [] ∧ c1.apps = [] ∧ Registered c1.s 5 ∧ c1.s.st = .activeIdle (some 5) none 0 ∧
+    c1.s.lastBusActivity = some 1000 ∧ c1.s.p = pEx ∧ c1.s.online = true :=
+  request_registered_idle sR0 [] 1000 [0x10, 3, 5, 0x49, 0x51, 0x16] [] none 0 (fdlStatusRequestHeader 3 5) []
+    .inactive true rfl rfl (by intro l hl; cases hl; decide) (by decide) (.inl (by decide)) (by decide) rfl rfl
+
+def sR : Station :=
+  { (Station.new pEx) with online := true, st := .activeIdle (some 5) none 0, lastBusActivity := some 1000 }
+
+theorem sR_inv : Inv sR [] := by
+  have h := inv_new pEx [] (by decide) (by decide) (by intro s hs; cases hs)
+  exact ⟨h.addr, h.hsa, h.ring, fun ho => by simp [sR] at ho, h.gap, fun a ha => by simp [sR] at ha,
+    fun a ha => by simp [sR] at ha, h.app, fun a d ha => by simp [sR] at ha, h.scripts, by simp [sR]⟩
+
+example : QuietThenReply 3 5 sR [] [1010, 1066] 1100 :=
+  reply_handshake_responder sR [] 1000 5 sR_inv rfl (.inr ⟨none, 0, rfl⟩) rfl (by decide) [1010, 1066] 1100
+    (by intro e he; simp at he; rcases he with rfl | rfl <;> decide) (by decide) (by decide)
+
+def sQ : Station :=
+  { (Station.new pA) with online := true, st := .awaitStatus 3, gap := .doPoll 3, lastBusActivity := some 0 }
+
+theorem sQ_inv : Inv sQ [] := by
+  have h := inv_new pA [] (by decide) (by decide) (by intro s hs; cases hs)
+  exact ⟨h.addr, h.hsa, h.ring, fun ho => by simp [sQ] at ho,
+    fun cur hc => by simp [sQ] at hc; subst hc; decide,
+    fun a ha => by simp [sQ] at ha; subst ha; exact ⟨rfl, by decide⟩,
+    fun a ha => by simp [sQ] at ha, h.app, fun a d ha => by simp [sQ] at ha, h.scripts, by simp [sQ]⟩
+
+example : AwaitsQuietly sQ [] [(100, []), (300, [0x10]), (650, [0x10, 5]), (900, [0x10, 5])] :=
+  requester_never_gives_up sQ [] 0 sQ_inv rfl (.inl ⟨3, rfl⟩) rfl _ (by
+    show Dense 400 0 0 _
+    simp [Dense])
+
 end PV.C01
